@@ -16,7 +16,33 @@ import (
 	"github.com/bluenviron/gohlslib/v2/internal/zzverif/vsched"
 )
 
+// c01HintScens: the part a reader is given through the preload-hint URI while the writer publishes it is the complete
+// fragment (the units the parent segment holds for it), never what the storage happened to contain at that moment. Hidden
+// spec C01-hint, run by C01's command: the C06 scenarios in which every requester asks for the hinted part.
+func c01HintScens(tier string) []msScen {
+	var out []msScen
+	for _, sc := range c06Scens(tier) {
+		all := true
+		for _, r := range sc.Reqs {
+			for _, k := range r {
+				if k != "PH" && k != "PH+1" {
+					all = false
+				}
+			}
+		}
+		if all {
+			sc.Prop = "C01"
+			out = append(out, sc)
+		}
+	}
+	return out
+}
+
 func init() {
+	verifProps["C01-hint"] = vh.Prop{
+		List: func(tier string) []vh.Scenario { return msListScenarios(c01HintScens(tier)) },
+		Run:  func(c *vh.Ctx) { runMuxSched(c, c01HintScens(c.Tier), c06Check) },
+	}
 	verifProps["C06"] = vh.Prop{
 		List: func(tier string) []vh.Scenario {
 			return append(msListScenarios(c06Scens(tier)), c06SeqList(tier)...)
